@@ -33,12 +33,14 @@ REQUIRED_THEOREMS = ['Yaql.Props.C04.' + n for n in (
     'frame frame_root sibling_independence shadowing shadowing_let unknown_null dollar_alias lambda_binds_innermost '
     'lambda_dollar get_argFrame with_numbering closure_lexical closure_lexical_args ucall_eq no_leak_arg no_leak_lambda '
     'no_leak_callee member_maps fuel_mono empty_frame_invisible let_names_verbatim let_other_name kwarg_names_verbatim '
-    'def_names_verbatim normName_inj_plain').split()]
+    'def_names_verbatim normName_inj_plain def_call_pure def_call_own_args def_calls_independent def_then_call '
+    'def_identity_faithful def_identity_injective').split()]
 TRUSTED = ['harness/evalref.py (plain-Python transcription of the language reference, second opinion for every case)',
            'harness/evalgen.py: the renderer AST -> yaql text (every generated text is parsed back by the engine under '
            'test and compared with the AST that goes to the model)']
-ASSUMPTIONS = ['model gap: a nameless unpack() over a lazy source that raises beyond its first element is outside the model (notes/C04.md); the generator does not produce it',
-               'documents are JSON-like: null / bool / int / str, lists, dicts with string keys (no floats, sets, host objects)',
+ASSUMPTIONS = ['documents are JSON-like: null / bool / int / float / str, lists, dicts with string keys (no sets, host objects); floats pass '
+               'through the model (literals, document leaves, arguments, results, keys, `=`, `+`, sort keys) while `-`, `*`, unary '
+               '`-` and the order comparisons on floats are predicted by the transcription only (model: out of domain)',
                'functions of the fragment: let with def unpack list dict select where selectMany orderBy orderByDescending '
                'takeWhile skipWhile indexWhere toDict aggregate sum first toList take skip get len any all; operators '
                '+ - * = != < <= > >= and or not unary-; anything else is outside the model',
@@ -486,6 +488,10 @@ REGRESSIONS = [
     ('the selector of an ordering runs inside the comparisons', "[1].orderBy($.foo)", [1]),
     ('a generator raises only when it is consumed', "[1, 'a'].select($ + 1).first()", 2),
     ('len does not accept an ordering', "[2, 1].orderBy($).len()", ('err', 'NoMatchingMethodException')),
+    ('unpack() without names consumes the whole source', "[1, 'a'].select($ + 1).unpack() -> $1", ('err', 'NoMatchingFunctionException')),
+    ('unpack(names) looks at len(names) + 1 elements', "[1, 'a'].select($ + 1).unpack(x) -> $x", ('err', 'NoMatchingFunctionException')),
+    ('unpack(names) looks at len(names) + 1 elements', "[1, 2, 'a'].select($ + 1).unpack(x) -> $x", ('err', 'ValueError')),
+    ('unpack(names) looks at len(names) + 1 elements', "[1, 'a'].select($ + 1).unpack(x, y) -> $x", ('err', 'NoMatchingFunctionException')),
 ]
 
 
